@@ -559,7 +559,7 @@ func prRunOne(w *vt.Writer, id int, plan prPlan, seed int64, cancelAt int, watch
 		}
 	}
 	r.emit(prEv{Ev: "End", N: int(atomic.LoadInt32(&r.active)), Flag: leak, Ms: runtime.NumGoroutine() - base})
-	return false, r.count
+	return leak, r.count
 }
 
 func prDecodePlans(path string) []prPlan {
